@@ -379,11 +379,16 @@ class AbstractPool:
                 system_config,
             )
 
-            result = await worker.call(
-                *preargs,
-                *compile_args,
-                sync_state=sync_state
-            )
+            try:
+                result = await worker.call(
+                    *preargs,
+                    *compile_args,
+                    sync_state=sync_state
+                )
+            except BaseException:
+                # The worker may have replaced its last compiler state.
+                worker._last_pickled_state = None
+                raise
             worker._last_pickled_state = result[1]
             if len(result) == 2:
                 return *result, 0
@@ -456,6 +461,13 @@ class AbstractPool:
             )
             worker._last_pickled_state = new_pickled_state
             return units, new_pickled_state, 0
+
+        except BaseException:
+            # The worker compiles on its last state in place: after a
+            # failure that state is no longer the one we hold pickled, so
+            # it must not be reused by reference.
+            worker._last_pickled_state = None
+            raise
 
         finally:
             # Put the worker at the end of the queue so that the chance
@@ -1619,6 +1631,13 @@ class MultiTenantPool(FixedPool):
             )
             worker._last_pickled_state = new_pickled_state
             return units, new_pickled_state, 0
+
+        except BaseException:
+            # The worker compiles on its last state in place: after a
+            # failure that state is no longer the one we hold pickled, so
+            # it must not be reused by reference.
+            worker._last_pickled_state = None
+            raise
 
         finally:
             self._release_worker(worker, put_in_front=False)
